@@ -171,6 +171,93 @@ def inverse_check():
     return bad
 
 
+def verdict_corr(seed, n):
+    """(d) the verdict loop itself: detect_missing_tx_field_validations_group_complete on random configured groups, with the
+    three contract-level questions answered by a random script, against the Lean model `Group.groupVerdict` on the same
+    group and script.  The real loop, Transaction / GroupTransaction objects and fill_group_relative_indexes are used as
+    they are; only the three question functions are replaced for the duration of the call."""
+    import tealer.detectors.utils as U
+    from tealer.detectors.abstract_detector import DetectorType
+    from tealer.execution_context.transactions import Transaction, GroupTransaction, fill_group_relative_indexes
+    from tealer.utils.teal_enums import TransactionType
+    rng = random.Random(f"c13-verdict/{seed}")
+
+    class K:  # stands for a Function object; the loop only passes it on
+        def __init__(self, tid, app): self.tid, self.app = tid, app
+    class Det:
+        def __init__(self, t): self.TYPE = t
+    class Tl:
+        def __init__(self, gs): self.groups = gs
+    saved = (U.contract_checks_its_field, U.contract_checks_txn_at_absolute_index, U.contract_checks_using_relative_index)
+    cases, reqs, stats = [], [], {'txns': {}, 'det': {}, 'reported': 0, 'cleared': 0, 'skipped': 0}
+    types = [TransactionType.Any, TransactionType.Pay, TransactionType.Appl, TransactionType.Axfer]
+    try:
+        for c in range(n):
+            k = rng.choice([1, 2, 2, 3, 3, 4])
+            det = rng.choice([('sl', DetectorType.STATELESS), ('sf', DetectorType.STATEFULL)])   # the types of the loop's callers
+            vtt = rng.choice([None, None, [TransactionType.Pay], [TransactionType.Appl, TransactionType.Any]])
+            ts = []
+            for i in range(k):
+                t = Transaction(); t.transacton_id = f"T{i}"; t.type = rng.choice(types)
+                if rng.random() < 0.7:
+                    t.has_logic_sig = True
+                    if rng.random() < 0.85: t.logic_sig = K(i, 0)
+                if rng.random() < 0.5: t.application = K(i, 1)
+                ts.append(t)
+            rng.shuffle(ts)                                         # listing order is not index order
+            idx = list(range(k)); rng.shuffle(idx)
+            for t, a in zip(ts, idx):
+                if rng.random() < 0.5: t.absoulte_index = a
+            for t in ts:
+                for o in rng.sample(ts, rng.randrange(0, k)):
+                    off = rng.randrange(-3, 4) or 1
+                    if o is not t and off not in t.relative_indexes and o not in t.relative_indexes.values():
+                        t.relative_indexes[off] = o                 # one offset per ordered pair, as a consistent group has
+            g = GroupTransaction(); g.transactions = ts; g.operation_name = f"op{c}"
+            for t in ts:
+                t.group_transaction = g
+                if t.absoulte_index is not None: g.absolute_indexes[t.absoulte_index] = t
+            fill_group_relative_indexes(g)
+            p = rng.choice([0.15, 0.4])
+            own = {(i, a) for i in range(k) for a in (0, 1) if rng.random() < p}
+            ab = {(i, a, j) for i in range(k) for a in (0, 1) for j in range(k) if rng.random() < p}
+            rel = {(i, a, o) for i in range(k) for a in (0, 1) for o in range(-3, 4) if rng.random() < p}
+            U.contract_checks_its_field = lambda f, chk, absidx: (f.tid, f.app) in own
+            U.contract_checks_txn_at_absolute_index = lambda f, chk, j: (f.tid, f.app, j) in ab
+            U.contract_checks_using_relative_index = lambda f, chk, o: (f.tid, f.app, o) in rel
+            try:
+                out = U.detect_missing_tx_field_validations_group_complete(Tl([g]), Det(det[1]), None, vtt)
+                got = sorted(int(t.transacton_id[1:]) for o in out for t in o.transactions)
+                shape_ok = all(list(fs) == ([t.logic_sig] if det[1] == DetectorType.STATELESS and t.logic_sig is not None else
+                                            [t.application] if det[1] == DetectorType.STATEFULL and t.application is not None else [])
+                               for o in out for t, fs in o.transactions.items())
+            except BaseException as e:  # noqa
+                got, shape_ok = f"EXC {type(e).__name__}: {e}", True
+            num = lambda t: int(t.transacton_id[1:])
+            tx = '|'.join(','.join([str(num(t)), str(int(t.has_logic_sig)), str(int(t.logic_sig is not None)), str(int(t.application is not None)),
+                                    str(int(vtt is None or t.type in vtt)), '-' if t.absoulte_index is None else str(t.absoulte_index),
+                                    ';'.join(f"{off}:{num(o)}" for off, o in t.relative_indexes.items()) or '-']) for t in ts)
+            enc = lambda s_: ','.join(':'.join(str(x) for x in e) for e in sorted(s_)) or '-'
+            reqs.append(f"group {c} {det[0]} {tx} {enc(own)} {enc(ab)} {enc(rel)}")
+            cases.append({'id': c, 'det': det[0], 'txns': tx, 'own': enc(own), 'abs': enc(ab), 'rel': enc(rel), 'impl': got, 'shape_ok': shape_ok, 'n': k})
+            stats['txns'][k] = stats['txns'].get(k, 0) + 1; stats['det'][det[0]] = stats['det'].get(det[0], 0) + 1
+    finally:
+        U.contract_checks_its_field, U.contract_checks_txn_at_absolute_index, U.contract_checks_using_relative_index = saved
+    drv = engine.driver()
+    outs = drv.run_many(reqs)
+    bad = []
+    for cse, line in zip(cases, outs):
+        w = line.split(' ')
+        model = sorted(int(x) for x in w[2].split(',') if x) if len(w) > 2 and w[0] == 'gv' and w[2] != 'badrequest' else (line if len(w) < 3 or w[2] == 'badrequest' else [])
+        if len(w) == 2 and w[0] == 'gv': model = []
+        cse['model'] = model
+        if isinstance(model, list) and isinstance(cse['impl'], list):
+            stats['reported'] += len(model); stats['cleared'] += cse['n'] - len(model)
+        if model != cse['impl'] or not cse['shape_ok']:
+            bad.append(cse)
+    return bad, len(cases), stats
+
+
 def c13(cx):
     n = 30 if cx.quick() else 300
     items = [{'name': f'fragment/{cx.seed}/{5000 + i}', 'src': gen.fragment(cx.seed, 5000 + i, max_stmts=4)[0]} for i in range(n)]
@@ -196,6 +283,13 @@ def c13(cx):
         cases += r['cases']; cx.distinct.add(r['name'])
         for msg in r['viol']:
             cx.violations.append({'kind': 'group-semantics', 'program': r['name'], 'prop': 'C13', 'field': 'pair', 'where': 'T0', 'detail': msg, 'src': r['src'], 'env': {'config': r.get('config')}})
+    vbad, vn, vstats = verdict_corr(cx.seed, 400 if cx.quick() else 6000)
+    cases += vn
+    for b in vbad[:5]:
+        cx.violations.append({'kind': 'verdict-loop', 'program': f"group {b['txns']}", 'prop': 'C13', 'field': 'verdict', 'where': b['det'],
+                              'detail': f"the verdict loop reports {b['impl']} where the model (Group.groupVerdict: eligible and not cleared by an own contract, an absolute-index check or an offset check) gives {b['model']}; scripted answers own={b['own']} abs={b['abs']} rel={b['rel']}; contracts listed per transaction as expected: {b['shape_ok']}",
+                              'src': '', 'env': b})
+    cx.samples.append({'verdict-loop correspondence': vstats})
     for b in inverse_check()[:3]:
         cx.violations.append({'kind': 'offset-inversion', 'program': 'fill_group_relative_indexes', 'prop': 'C13', 'field': 'inverse', 'where': str(b), 'detail': f"offset table is not the inverse of the configured offsets: {b}", 'src': '', 'env': None})
     cx.evaluations += cases + 200
